@@ -3,8 +3,8 @@
 (* C11 I/O failures are never silently dropped.  Model: coq/Fault.v (policy language, abstract interpreter, *)
 (* mpi2nc, propagation table) instantiated with coq/Gen_iosites.v (tools/tr_iosites.py, regenerated from the *)
 (* sources as built on every run).  no_silent_drop s: for every MPI error class, the function containing I/O *)
-(* site s returns an error and so does every function on every static call path above it , up to the ncmpi_ entry points. *)
-(* xxx_refuted: the present code loses the error (witness class or losing link site);  xxx_drops: exactly which *)
+(* site s returns an error and so does every function on every static call path above it, up to the ncmpi_ entry points. *)
+(* xxx_refuted: the present code loses the error (witness class or losing link site); xxx_drops: exactly which *)
 (* classes are lost in the function; xxx_partial: what is propagated nevertheless. *)
 From Coq Require Import ZArith List.
 From Pnc Require Import Proofs_Fault.
